@@ -477,7 +477,9 @@ func (g *wg) xcontent() string {
 	return sb.String()
 }
 
-func (g *wg) xindent() string { return g.eol() + strings.Repeat(vh.Pick(g.r, []string{"  ", "\t", " "}), g.depth) }
+func (g *wg) xindent() string {
+	return g.eol() + strings.Repeat(vh.Pick(g.r, []string{"  ", "\t", " "}), g.depth)
+}
 
 func (g *wg) xprop() string {
 	name := g.xname()
@@ -728,7 +730,9 @@ func (g *wg) hattrs(as []string) string {
 	return s
 }
 
-func (g *wg) hindent() string { return g.eol() + strings.Repeat(vh.Pick(g.r, []string{"  ", "\t"}), g.depth) }
+func (g *wg) hindent() string {
+	return g.eol() + strings.Repeat(vh.Pick(g.r, []string{"  ", "\t"}), g.depth)
+}
 
 func (g *wg) rdfaName() string {
 	return vh.Pick(g.r, []string{"ex:p", "ex:" + g.word(), "dc:title", "foaf:name", "name", "license", "http://p.example/" + g.word(), "schema:" + g.word(), "ex:名", ":x", "next"})
